@@ -136,7 +136,10 @@ def protocol_traces(seed, count, length):
                 continue
             m["uc"] = rng.random() > 0.1
             m["es"] = rng.choice([[], [], [{"ty": "offer", "svc": "s1", "ttl": 3, "opts": []}],
-                                  [{"ty": "find", "svc": "f1", "ttl": 3, "opts": []}]])
+                                  [{"ty": "find", "svc": "f1", "ttl": 3, "opts": []}],
+                                  # an SD endpoint option naming some peer's endpoint (often not the sender's): detection follows the SENDER
+                                  [{"ty": "offer", "svc": "s1", "ttl": 3, "opts": [rng.choice(["sd1", "sd2"])]}],
+                                  [{"ty": "offer", "svc": "s3", "ttl": 3, "opts": ["e1", rng.choice(["sd1", "sd2"])]}]])
         ev, missed = run_protocol(seq, spread)
         traces.append({"cfg": cfg, "ev": monpass.add_adv(ev), "sched": seq, "spread": spread, "mode": "protocol"})
     return traces
